@@ -72,11 +72,18 @@ def pat_match(p, val, binds=None, maybe=None):
     if k == "ref":
         return pat_match(p["pat"], val, binds, maybe)
     if k == "or":
+        # rustc resolves uses of an or-pattern binding to the FIRST alternative's binding id: alias the matched
+        # alternative's bindings to the first alternative's ids by name
+        first_ids = {x["name"]: x["local"] for x in walk(p["pats"][0]) if x.get("p") == "bind"} if p["pats"] else {}
         for alt in p["pats"]:
             b = dict(binds)
             r = pat_match(alt, val, b, maybe)
             if r is not None:
-                return r
+                for x in walk(alt):
+                    if x.get("p") == "bind" and x["name"] in first_ids and x["local"] in r:
+                        r[first_ids[x["name"]]] = r[x["local"]]
+                binds.update(r)      # callers matching a tuple keep using `binds`
+                return binds
         return None
     if k == "tuple":
         if val is None:
